@@ -224,6 +224,11 @@ pub fn runner_cli(cfg: &spec::Cfg) -> RunnerCli {
     }
 }
 
+/// The three regexes of the harness's step definitions: (`step <unit> <n>`, `ambig ..`, `ambig <a> <b>`).
+pub fn step_regexes() -> (Regex, Regex, Regex) {
+    (Regex::new(r"^step (\S+) (\S+)$").unwrap(), Regex::new(r"^ambig (.*)$").unwrap(), Regex::new(r"^ambig \S+ \S+$").unwrap())
+}
+
 pub fn base_runner(cfg: &spec::Cfg) -> runner::Basic<TW> {
     let mut r = runner::Basic::<TW>::default();
     if let Some(c) = cfg.b_concurrency {
@@ -287,6 +292,10 @@ fn build_stream(case: &CaseSpec, feats: LazyParser) -> LocalBoxStream<'static, I
         (false, false, false) => start(r, feats, cli),
         (false, true, false) => start(r.before(world::before_hook), feats, cli),
         (false, false, true) => start(r.after(world::after_hook), feats, cli),
+        // (the hook builders commute as well)
+        (false, true, true) if case.sched_seed % 2 == 1 => {
+            start(r.after(world::after_hook).before(world::before_hook), feats, cli)
+        }
         (false, true, true) => {
             start(r.before(world::before_hook).after(world::after_hook), feats, cli)
         }
@@ -306,6 +315,11 @@ fn build_stream(case: &CaseSpec, feats: LazyParser) -> LocalBoxStream<'static, I
         // the builder methods commute: half of the cases call them in the other order
         (true, true, true) if case.sched_seed % 2 == 0 => start(
             r.before(world::before_hook).after(world::after_hook).which_scenario(custom_which),
+            feats,
+            cli,
+        ),
+        (true, true, true) if case.sched_seed % 4 == 1 => start(
+            r.which_scenario(custom_which).after(world::after_hook).before(world::before_hook),
             feats,
             cli,
         ),
